@@ -122,6 +122,13 @@ def plan(tier, seed):
                 for j in (PAIR_JOINERS[:3] if tier == "quick" else PAIR_JOINERS):
                     for o in (EXTREME_OPTS[:1] if tier == "quick" else EXTREME_OPTS):
                         yield ("call1" if tier == "quick" else "call", a + j + b, edge[3], o, seed)
+        # long texts: 3..8 grammar sentences in a row (one contiguous expression of 20+ tokens stresses the scorer's numerics)
+        for n in range(3, 9):
+            for start in range(0, len(gs), 5):
+                chunk = (gs + gs)[start : start + n]
+                for j in (" ", " - ", " and "):
+                    for o in EXTREME_OPTS[:2]:
+                        yield ("call1" if tier == "quick" else "call", j.join(chunk), edge[3], o, seed)
         for b in cps:
             yield ("cpblock", b, edge[3])
         for i in range(0, len(absent), 50):
